@@ -22,12 +22,19 @@ def check(program, cname="Traph"):
             continue
         q = "%s.%s" % (cname, f.name)
         names = set(n.id for n in ast.walk(f) if isinstance(n, ast.Name))
-        if not {"last_path", "last_path_i"} <= names:
-            # the bookkeeping variables were renamed or restructured: this contract can
-            # no longer be resolved against the code -> undecided, never a violation
-            obs.append({"id": "SK-PAIR(%s)" % q, "ok": True, "undecided": "the variables last_path / last_path_i are not present any more"})
+        tokens = [n for n in ast.walk(f) if isinstance(n, ast.Call) and getattr(n.func, "id", "") == "build_pagination_token"]
+        if not tokens:
+            # no token is built here any more: the contract cannot be resolved against
+            # the code -> undecided, never a violation
+            obs.append({"id": "SK-PAIR(%s)" % q, "ok": True, "undecided": "no build_pagination_token call in the function"})
             continue
-        # the loop over prefixes: for i in range(start_i, len(prefixes))
+        # the pair of variables the token is built from
+        t0 = tokens[0]
+        if len(t0.args) == 2 and all(isinstance(a, ast.Name) for a in t0.args):
+            PI, PP = t0.args[0].id, t0.args[1].id
+        else:
+            obs.append({"id": "SK-PAIR(%s:token#1)" % q, "ok": False, "detail": "the token is not built from a recorded (prefix index, path) pair of variables: %s" % ast.unparse(t0)})
+            continue
         loops = [n for n in ast.walk(f) if isinstance(n, ast.For) and isinstance(n.target, ast.Name) and isinstance(n.iter, ast.Call) and getattr(n.iter.func, "id", "") == "range"]
         ivar = loops[0].target.id if loops else None
         obs.append({"id": "SK-PAIR(%s:prefix-loop)" % q, "ok": ivar is not None, "detail": None if ivar else "no `for i in range(...)` over the prefixes"})
@@ -42,19 +49,19 @@ def check(program, cname="Traph"):
 
         for b in blocks(f):
             for st in b:
-                if isinstance(st, ast.Assign) and any(isinstance(t, ast.Name) and t.id == "last_path" for t in st.targets):
+                if isinstance(st, ast.Assign) and any(isinstance(t, ast.Name) and t.id == PP for t in st.targets):
                     if isinstance(st.value, ast.Constant) and st.value.value is None:
                         continue  # initialisation
                     n_upd += 1
-                    mate = [s2 for s2 in b if isinstance(s2, ast.Assign) and any(isinstance(t, ast.Name) and t.id == "last_path_i" for t in s2.targets) and isinstance(s2.value, ast.Name) and s2.value.id == ivar]
-                    obs.append({"id": "SK-PAIR(%s:update#%d)" % (q, n_upd), "ok": bool(mate), "detail": None if mate else "last_path is updated at line %d without last_path_i = %s in the same block" % (st.lineno, ivar)})
+                    mate = [s2 for s2 in b if isinstance(s2, ast.Assign) and any(isinstance(t, ast.Name) and t.id == PI for t in s2.targets) and isinstance(s2.value, ast.Name) and s2.value.id == ivar]
+                    obs.append({"id": "SK-PAIR(%s:update#%d)" % (q, n_upd), "ok": bool(mate), "detail": None if mate else "%s is updated at line %d without %s = %s in the same block" % (PP, st.lineno, PI, ivar)})
         obs.append({"id": "SK-PAIR(%s:updates-exist)" % q, "ok": n_upd >= 1, "detail": None if n_upd else "last_path is never updated"})
         k = 0
         for n in ast.walk(f):
             if isinstance(n, ast.Call) and getattr(n.func, "id", "") == "build_pagination_token":
                 k += 1
-                good = len(n.args) == 2 and all(isinstance(a, ast.Name) for a in n.args) and [a.id for a in n.args] == ["last_path_i", "last_path"]
-                obs.append({"id": "SK-PAIR(%s:token#%d)" % (q, k), "ok": good, "detail": None if good else "token built from %s" % ast.unparse(n)})
+                good = len(n.args) == 2 and all(isinstance(a, ast.Name) for a in n.args) and [a.id for a in n.args] == [PI, PP] and PI != ivar
+                obs.append({"id": "SK-PAIR(%s:token#%d)" % (q, k), "ok": good, "detail": None if good else "token built from %s (the prefix loop variable itself may already have advanced past the prefix the path was recorded under)" % ast.unparse(n)})
         resets = [n for n in ast.walk(loops[0]) if isinstance(n, ast.Assign) and any(isinstance(t, ast.Name) and t.id == "pagination_path" for t in n.targets) and isinstance(n.value, ast.Constant) and n.value.value is None] if loops else []
         direct = [s for s in (loops[0].body if loops else []) if s in resets]
         obs.append({"id": "SK-PAIR(%s:reset)" % q, "ok": bool(direct), "detail": None if direct else "pagination_path is not reset to None at the end of each prefix"})
